@@ -32,3 +32,19 @@ Print Assumptions C14_unmap_keeps_others.
 
 Example C14_nonvacuous : in_domain ex_ops = true.
 Proof. exact ex_in_domain. Qed.
+
+(* ---------------------------------------------------------------- second tie: translated code
+   GenLeaf.v is REGENERATED from /repo's Go source on every run (tools/go2coq, explicit Go integer
+   semantics GoSem.v); the theorems below say that the generated definitions equal the model's
+   functions on the stated ranges, so an edit of these Go functions breaks an obligation of this file. *)
+From Arsenal Require GoSem GenLeaf GenLeafProofs.
+
+Theorem C14_code_postMapUnmap : forall s,
+  GenLeaf.postMapUnmap (SyncMem.delayCounter s) (SyncMem.statusCounter s) (SyncMem.extra s)
+  = (snd (SyncMem.post_map_unmap s), SyncMem.delayCounter (fst (SyncMem.post_map_unmap s)),
+     SyncMem.statusCounter (fst (SyncMem.post_map_unmap s)), SyncMem.extra (fst (SyncMem.post_map_unmap s)))
+  /\ fst (SyncMem.post_map_unmap s)
+     = SyncMem.set_extra (SyncMem.set_counters s (SyncMem.delayCounter (fst (SyncMem.post_map_unmap s))) (SyncMem.statusCounter (fst (SyncMem.post_map_unmap s))))
+                 (SyncMem.extra (fst (SyncMem.post_map_unmap s))).
+Proof. exact GenLeafProofs.gen_postMapUnmap_eq. Qed.
+Print Assumptions C14_code_postMapUnmap.
